@@ -22,6 +22,7 @@
   5. counter-examples for the two decoders that were defective as shipped.
 -/
 import PyIpmi.Lemmas.ApiAll
+import PyIpmi.Lemmas.ApiDomain
 namespace PyIpmi.Props.C07
 open PyIpmi PyIpmi.Codec PyIpmi.Spec.Bmc PyIpmi.Model.Api PyIpmi.Gen.Tables PyIpmi.Lemmas.Api
 
@@ -285,6 +286,12 @@ operation leaves the BMC in the state the oracle denotes and returns / raises wh
 theorem model_refines_oracle (c : Call) (s : BmcState) (hc : c.InRange) (hw : s.Wf) :
     runModel c s = present (run c s) :=
   runModel_refines c s hc hw
+
+/-- the same with the EXECUTABLE hypotheses the driver evaluates on every (state, call) pair of the
+correspondence run (`domain` command): whatever it reports as inside the domain is covered by the theorem -/
+theorem model_refines_oracle_checked (c : Call) (s : BmcState) (hc : inRangeB c = true) (hw : wfB s = true) :
+    runModel c s = present (run c s) :=
+  runModel_refines c s (inRangeB_sound hc) (wfB_sound hw)
 
 /-- the state assumption is an invariant: it holds for the power-on state and after every in-range call -/
 theorem wf_invariant : ({} : BmcState).Wf ∧ ∀ (c : Call) (s : BmcState), c.InRange → s.Wf → (run c s).1.Wf :=
